@@ -44,7 +44,7 @@ def hostile(spec: dict, rng) -> list[str]:  # noqa: ANN001
     feats = []
     x = lambda: rng.choice(variables)  # noqa: E731
     k = lambda: rng.choice(params)  # noqa: E731
-    for kind in rng.sample(["shared", "permuted", "same_name", "dup_args", "sqrt", "prefix_collision", "ia_variable", "same_name_coef", "mirror_same_name", "same_name_other_arity", "module_state", "same_name_assignments"], rng.randint(1, 3)):
+    for kind in rng.sample(["shared", "permuted", "same_name", "dup_args", "sqrt", "prefix_collision", "ia_variable", "same_name_coef", "mirror_same_name", "same_name_other_arity", "module_state", "same_name_assignments", "local_module_alias"], rng.randint(1, 3)):
         if kind == "shared":
             comps.append({"kind": "derived", "name": "hs1", "fn": L(tr.t_div), "args": [x(), k()]})
             comps.append({"kind": "derived", "name": "hs2", "fn": L(tr.t_div), "args": [k(), x()]})
@@ -96,6 +96,12 @@ def hostile(spec: dict, rng) -> list[str]:  # noqa: ANN001
             comps.append({"kind": "parameter", "name": "hap", "ia": {"fn": L(tb.t_add), "args": [k(), k()]}})
             comps.append({"kind": "parameter", "name": "haq", "ia": {"fn": L(tr.t_add), "args": [k(), k()]}})
             comps.append({"kind": "reaction", "name": "har", "fn": L(tr.t_ma2), "args": ["hap", "hav", "haq"], "stoich": {"hav": -1.0}})
+        elif kind == "local_module_alias":
+            # a constant read through a module alias the function binds itself, although its module binds the same alias to
+            # another module whose constant of that name has another value (and a sibling that reads the module-level one)
+            s = x()
+            comps.append({"kind": "derived", "name": "hlc", "fn": L(tb.t_localcfg), "args": [s, k()]})
+            comps.append({"kind": "reaction", "name": "hlv", "fn": L(tb.t_modulecfg), "args": [s, k()], "stoich": {s: -1.0}})
         elif kind == "same_name_coef":
             s = x()
             comps.append({"kind": "reaction", "name": "hc1", "fn": L(tr.t_ma1), "args": [k(), s], "stoich": {s: {"fn": L(tr.t_half), "args": [k()]}}})
